@@ -181,6 +181,21 @@ def run_case(case, ctx):
             ctx.check(SYMBOL_Z.get(el.symbol) == i.atomic_number, "atomic-number:periodic-table",
                       "isotope %s has atomic number %s, periodic table says %s for %s" % (
                           i.name, i.atomic_number, SYMBOL_Z.get(el.symbol), el.symbol), monitor="periodic_table")
+            # independent reading of the isotope's OWN identifiers: the letters of its symbol (H/D/T for the hydrogen
+            # isotopes) name a periodic-table element, whose number must be the isotope's and whose symbol its element's
+            letters = "".join(ch for ch in i.symbol if ch.isalpha())
+            digits = "".join(ch for ch in i.symbol if ch.isdigit())
+            zsym = {"D": 1, "T": 1}.get(letters, SYMBOL_Z.get(letters))
+            ctx.check(zsym == i.atomic_number, "isotope-symbol:periodic-table",
+                      "isotope %s has symbol %s (periodic table: Z=%s) but atomic number %s / element %s" % (
+                          i.name, i.symbol, zsym, i.atomic_number, el.name), monitor="periodic_table")
+            if digits:
+                ctx.check(int(digits) == i.mass_number, "isotope-symbol:mass-number",
+                          "isotope %s has symbol %s but mass number %s" % (i.name, i.symbol, i.mass_number), monitor="isotope_laws")
+            nletters = "".join(ch for ch in i.name if not ch.isdigit())
+            if nletters not in ("protium", "deuterium", "tritium"):
+                ctx.check(nletters == el.name, "isotope-name:element-name",
+                          "isotope %s is attached to element %s" % (i.name, el.name), monitor="isotope_laws")
             ctx.check(i.mass_number >= i.atomic_number, "isotope-mass-number",
                       "isotope %s has mass number %s < Z=%s" % (i.name, i.mass_number, i.atomic_number), monitor="isotope_laws")
             ctx.check(abs(i.atomic_weight - i.mass_number) <= 0.1, "isotope-weight",
